@@ -329,10 +329,18 @@ class Type4Tag(nfc.tag.Tag):
                 nlen = unpack(lfmt, nlen)[0]
                 log.debug("ndef data length is {0}".format(nlen))
 
+                if nlen > self._capacity:
+                    log.debug("ndef data length exceeds the file size limit")
+                    return None
+
                 data = bytearray()
                 while len(data) < nlen:
                     offset = self._nlen_size + len(data)
-                    data += self._read_binary(offset, nlen - len(data))
+                    part = self._read_binary(offset, nlen - len(data))
+                    if len(part) == 0:
+                        log.debug("no data returned at offset %d", offset)
+                        return None
+                    data += part
 
             except Type4TagCommandError:
                 return None
